@@ -30,12 +30,26 @@ func extractStore() {
 	fIndex := parse("headerfs/index.go")
 	fBM := parse("blockmanager.go")
 
+	fileOf := func(fd *ast.FuncDecl) *ast.File {
+		for _, f := range []*ast.File{fFile, fStore, fIndex, fBM} {
+			if f == nil {
+				continue
+			}
+			for _, d := range f.Decls {
+				if d == ast.Decl(fd) {
+					return f
+				}
+			}
+		}
+		return nil
+	}
 	before := func(name string, fd *ast.FuncDecl, first, second string, where string) {
 		ok := false
 		if fd == nil {
 			fail("%s: function for fact %s", where, name)
 		} else {
-			cs := calls(fd.Body)
+			// (calls of same-file unexported helpers count where the helper is called)
+			cs := callsInlined(fileOf(fd), fd.Body)
 			i, j := callIndex(cs, first), callIndex(cs, second)
 			if i < 0 || j < 0 {
 				fail("%s: calls %q and %q for fact %s", where, first, second, name)
